@@ -516,6 +516,18 @@ func main() {
 			}
 		}
 	}
+	if rp == nil {
+		// content types: goa's encoder / decoder selection probed directly (content.go)
+		nProbe := 400
+		if *tier == "thorough" {
+			nProbe = 4000
+		}
+		lines, info, err := contentProbe(b, rng, nProbe, res)
+		if err != nil {
+			res.Fail("fixed/content-type-probe-broken", err.Error(), map[string]any{"design": nil})
+		}
+		mc.codec, mc.codecInfo = lines, info
+	}
 	if err := mc.write(*out, res); err != nil {
 		panic(err)
 	}
